@@ -283,7 +283,10 @@ Qed.
 Definition spoc_ctx (ca : ctxarg) (dflt : bool) : option cid :=
   match ca with
   | CTriple => if dflt then Some 0 else None
-  | CQuad oa => option_map arg_name oa
+  | CQuad oa => match option_map arg_name oa with
+                | None => if dflt then Some 0 else None
+                | Some c => Some c
+                end
   end.
 
 Lemma cg_spoc_spec d sp ca dflt :
@@ -293,7 +296,8 @@ Lemma cg_spoc_spec d sp ca dflt :
 Proof.
   intros H. destruct ca as [|oa]; simpl.
   - eexists; split; [reflexivity|]. auto.
-  - destruct (cg_graph_spec d sp oa H) as (d1 & E & HR). exists d1. split; auto.
+  - destruct (cg_graph_spec d sp oa H) as (d1 & E & HR). rewrite E. exists d1. split; auto.
+    destruct oa; simpl; auto.
     destruct oa; simpl; auto.
 Qed.
 
@@ -349,7 +353,7 @@ Proof.
   - eexists; split; [reflexivity|auto].
   - destruct (cg_graph_read d sp oa H) as (d1 & E & HR).
     + destruct oa; simpl in *; auto. now rewrite Hnf.
-    + exists d1. split; auto.
+    + exists d1. rewrite E. split; auto. destruct oa; reflexivity.
 Qed.
 
 Lemma cg_triples_spec d sp p ca kw du :
@@ -488,16 +492,15 @@ Proof.
 Qed.
 
 Lemma do_op_spec d sp o :
-  R d sp -> op_wf o = true -> adds_none o = false -> leaks sp o = false ->
+  R d sp -> op_wf o = true -> leaks sp o = false ->
   exists d1 r, do_op d o = (d1, r) /\ R d1 (sp_step sp o) /\ res_ok sp o r = true.
 Proof.
-  intros H Hwf Hnone Hleak.
+  intros H Hwf Hleak.
   destruct o as [t ca|l|p ca|oa|oa|c|p ca kw du|p ca|p ca du]; cbn [do_op sp_step].
   - (* add *)
     unfold cg_add. destruct (cg_spoc_spec d sp ca true H) as (d1 & E & HR & Hs). rewrite E.
     eexists; eexists; split; [reflexivity|]. split; [|reflexivity].
-    destruct ca as [|[a|]]; [| |discriminate Hnone];
-      cbn [sp_target spoc_ctx option_map fst] in *; now apply R_add.
+    destruct ca as [|[a|]]; cbn [sp_target spoc_ctx option_map fst] in *; now apply R_add.
   - eexists; eexists; split; [reflexivity|]. split; [now apply R_addN|reflexivity].
   - (* remove *)
     unfold cg_remove. destruct (cg_spoc_spec d sp ca false H) as (d1 & E & HR & Hs). rewrite E.
@@ -550,7 +553,10 @@ Lemma is_ds_cg_graph d oa : is_ds (fst (cg_graph d oa)) = is_ds d.
 Proof. destruct oa as [[c|c|c ts]|]; cbn [cg_graph fst set_st is_ds]; auto using is_ds_touch. Qed.
 
 Lemma is_ds_cg_spoc d ca b : is_ds (fst (cg_spoc d ca b)) = is_ds d.
-Proof. destruct ca; cbn [cg_spoc fst]; auto using is_ds_cg_graph. Qed.
+Proof.
+  destruct ca as [|oa]; cbn [cg_spoc fst]; auto.
+  pose proof (is_ds_cg_graph d oa) as H. destruct (cg_graph d oa) as [d1 c]. exact H.
+Qed.
 
 Lemma is_ds_cg_triples d p ca kw du : is_ds (fst (cg_triples d p ca kw du)) = is_ds d.
 Proof.
@@ -657,14 +663,13 @@ Qed.
 (* the model satisfies the checker on every well-formed history outside the
    two known-finding regions *)
 Theorem spec_run_model c : forall ops d sp,
-  R d sp -> is_ds d = c_ds c -> forallb op_wf ops = true ->
-  existsb adds_none ops = false -> leak_run sp ops = false ->
+  R d sp -> is_ds d = c_ds c -> forallb op_wf ops = true -> leak_run sp ops = false ->
   spec_run c sp ops (run c d ops) = true.
 Proof.
-  induction ops as [|o r IH]; intros d sp H Hk Hwf Hn Hl; [reflexivity|].
-  cbn [forallb existsb leak_run] in *. apply andb_true_iff in Hwf. destruct Hwf as [W1 W2].
-  apply orb_false_iff in Hn. apply orb_false_iff in Hl. destruct Hn as [N1 N2], Hl as [L1 L2].
-  destruct (do_op_spec d sp o H W1 N1 L1) as (d1 & rs & E & R1 & Ok1).
+  induction ops as [|o r IH]; intros d sp H Hk Hwf Hl; [reflexivity|].
+  cbn [forallb leak_run] in *. apply andb_true_iff in Hwf. destruct Hwf as [W1 W2].
+  apply orb_false_iff in Hl. destruct Hl as [L1 L2].
+  destruct (do_op_spec d sp o H W1 L1) as (d1 & rs & E & R1 & Ok1).
   pose proof (is_ds_do_op d o) as K1. rewrite E in K1. cbn [fst] in K1.
   destruct (snapshot_spec c d1 _ R1 (eq_trans K1 Hk)) as (d2 & sn & E2 & R2 & K2 & Ok2).
   cbn [run]. rewrite E, E2. cbn [spec_run]. rewrite Ok1, Ok2. cbn [andb]. apply IH; auto.
@@ -673,16 +678,12 @@ Qed.
 Theorem spec_ok_model c : wf c -> kf c = 0 -> spec_ok c (model_obs c) = true.
 Proof.
   unfold wf, kf, spec_ok, model_obs. intros Hwf Hkf.
-  destruct (existsb adds_none (c_ops c)) eqn:E1; [discriminate|].
   destruct (leak_run sp_init (c_ops c)) eqn:E2; [discriminate|].
   apply spec_run_model; auto using R_init.
 Qed.
 
-Lemma kf_zero c : kf c = 0 <-> existsb adds_none (c_ops c) = false /\ leak_run sp_init (c_ops c) = false.
-Proof.
-  unfold kf. destruct (existsb adds_none (c_ops c)); [split; [discriminate|intros [? _]; discriminate]|].
-  destruct (leak_run sp_init (c_ops c)); split; auto; try discriminate. intros [_ ?]; discriminate.
-Qed.
+Lemma kf_zero c : kf c = 0 <-> leak_run sp_init (c_ops c) = false.
+Proof. unfold kf. destruct (leak_run sp_init (c_ops c)); split; auto; discriminate. Qed.
 
 (* ------------------------------------------------------------------ *)
 (* Isolation, directly on the model (no hypothesis on the state) *)
@@ -722,11 +723,12 @@ Proof.
   - intros [H|[-> [->|H]]]; auto. right. right. eauto.
 Qed.
 
-Lemma add_triple_default d t g t' :
-  holds (cg_add d t CTriple) g t' <-> holds d g t' \/ (g = 0 /\ t' = t).
+Lemma add_triple_default d t ca g t' :
+  ca = CTriple \/ ca = CQuad None ->
+  (holds (cg_add d t ca) g t' <-> holds d g t' \/ (g = 0 /\ t' = t)).
 Proof.
-  unfold cg_add, holds. cbn [cg_spoc set_st st st_add quads]. rewrite q_add_In.
-  split; [intros [[= -> ->]|H]|intros [H|[-> ->]]]; auto.
+  intros [-> | ->]; unfold cg_add, holds; cbn [cg_spoc cg_graph set_st st st_add quads]; rewrite q_add_In;
+    (split; [intros [[= -> ->]|H]|intros [H|[-> ->]]]; auto).
 Qed.
 
 Lemma remove_quad_isolated d p c g t :
@@ -795,10 +797,13 @@ Lemma no_fallback d p ca kw du g :
 Proof.
   intros Hca Hkw Hg Hdu t. unfold cg_triples.
   assert (H1 : quads (st (fst (cg_spoc d ca false))) = quads (st d)).
-  { destruct ca as [|oa]; cbn [cg_spoc fst]; auto. apply quads_cg_graph_nf.
-    destruct oa as [a|]; cbn in *; auto. now rewrite Hca. }
+  { destruct ca as [|oa]; cbn [cg_spoc fst]; auto.
+    assert (Hq : quads (st (fst (cg_graph d oa))) = quads (st d)).
+    { apply quads_cg_graph_nf. destruct oa as [a|]; cbn in *; auto. now rewrite Hca. }
+    destruct (cg_graph d oa) as [d1 c]. exact Hq. }
   assert (H1' : snd (cg_spoc d ca false) = eff_graph ca None).
-  { destruct ca as [|oa]; cbn [cg_spoc snd]; auto. rewrite snd_cg_graph. destruct oa; reflexivity. }
+  { destruct ca as [|oa]; cbn [cg_spoc snd]; auto. pose proof (snd_cg_graph d oa) as Hs.
+    destruct (cg_graph d oa) as [d1 c]. cbn [snd] in *. subst c. destruct oa; reflexivity. }
   destruct (cg_spoc d ca false) as [d1 c]. cbn [fst snd] in *. subst c.
   set (arg := match kw with Some a => Some a | None => regraph (eff_graph ca None) end).
   assert (Hnf : no_foreign arg = true).
@@ -853,15 +858,18 @@ Definition w_f17 : case :=
   {| c_ds := true; c_names := [0; 1; 2]; c_vocab := [(1, 3, 2)];
      c_ops := [OAdd (1, 3, 2) (CQuad (Some (GId 1))); OAdd (1, 3, 2) (CQuad (Some (GId 2)));
                OQuads pall (CQuad (Some (GId 1)))] |}.
-Definition w_f18 : case :=
-  {| c_ds := true; c_names := [0; 1]; c_vocab := [(2, 3, 2)];
-     c_ops := [OAdd (2, 3, 2) (CQuad None)] |}.
-
 Lemma quads_restricted_refuted : exists c, wf c /\ kf c = 1 /\ spec_ok c (model_obs c) = false.
 Proof. exists w_f17. repeat split; vm_compute; reflexivity. Qed.
 
-Lemma add_none_graph_refuted : exists c, wf c /\ kf c = 2 /\ spec_ok c (model_obs c) = false.
-Proof. exists w_f18. repeat split; vm_compute; reflexivity. Qed.
+(* the historical _spoc (finding F18, repaired) filed a quad whose graph is None
+   under no graph: the merged view shows the triple, no graph holds it *)
+Lemma hist_spoc_none_refuted :
+  exists t, let d := cg_add_hist (ds_init true) t (CQuad None) in
+    In t (snd (cg_triples d pall CTriple None true)) /\ forall g, ~ holds d g t.
+Proof.
+  exists (2, 3, 2). cbv zeta. split; [vm_compute; auto|].
+  intros g H. unfold holds in H. vm_compute in H. exact H.
+Qed.
 
 (* ------------------------------------------------------------------ *)
 (* what the boolean checker says, in words *)
